@@ -191,6 +191,12 @@ class SpecMixin:
         p = self.get_payload(toks.ref, self.use_old)
         return VInt(self.list_len(p))
 
+    def spec_strfun(self, node, fr):
+        """strfun('Name', a, b, ...): the uninterpreted string function used as `result_fun` of a contract"""
+        name = node.args[0].value
+        args = [self.eval(a, fr) for a in node.args[1:]]
+        return self.apply_strfun(name, [a for a in args if isinstance(a, (VInt, VBool))])
+
     def spec_ischar(self, node, fr):
         s = self.eval(node.args[0], fr)
         return VBool(s.length() == 1)
